@@ -259,3 +259,36 @@ def c08(ctx, replay):
                     "cases with a stage or a limit",
                assumptions=["which records with the timestamp of the cut are returned, the order of streams and of equal timestamps "
                             "inside a stream are left open", "strconv.Quote is modelled as escaping of quote and backslash only (step 1)"])
+
+
+@prop("C19")
+def c19(ctx, replay):
+    inv = ["SubMultiset", "NegationSplits", "Commute", "Idempotent", "TrueIsNeutral", "AndIsIntersection", "OrIsUnion"]
+    mcs = [dict(name="algebra", module="MC_Algebra", consts=dict(MaxRec=2, Pools=V.tla_str(T(ctx, "quick", "full"))), invariants=inv)]
+
+    def nontrivial(scns):
+        # families in which the filter keeps some records and drops some (the relation is not vacuous)
+        n = 0
+        for sid, lines in scns:
+            sizes = []
+            cur = None
+            for l in lines[1:]:
+                if '"ev":"Run"' in l:
+                    cur = 0
+                elif '"ev":"Entry"' in l and cur is not None:
+                    cur += 1
+                elif '"ev":"Return"' in l and cur is not None:
+                    sizes.append(cur)
+            if len(set(sizes)) > 1:
+                n += 1
+        return n
+    return std(ctx, "C19", mc=mcs, harness_cmd="logq", harness_opts=["mode=algebra"], trace_module="Trace_Algebra",
+               nrand=T(ctx, 1200, 30000), replay=replay, nontrivial=nontrivial, exhaustive=True, chunk_events=20000,
+               rule="step 1: the reference semantics satisfies the filter algebra for every record set (<=2 records) x base pipeline x "
+                    "pair of filters / pair of predicates of the pools; every family (8 related queries for filters f, g; 5 for "
+                    "predicates a, b) is evaluated through Engine.Eval, and seeded random families with arbitrary needle bytes, "
+                    "arbitrary valid Go regular expressions (not interpreted by the specification), label filters with all operators and "
+                    "base pipelines of <=3 stages; TLC checks the relations on the OBSERVED result sets; non-trivial = families whose "
+                    "related queries return differently sized results",
+               assumptions=["records of a scenario have distinct timestamps, so result multisets are sets of (timestamp, line)",
+                            "stateful distinct is excluded from commutation, as the property says"])
